@@ -7,7 +7,7 @@ the idiom `try: labelfmt.format(...) except IndexError: raise ValueError`, whose
 (`labelfmt_format : Except Err Unit`).
 ABSTRACTS declares the observers of interface objects (formula, graph): name -> ([param types], result, may raise).
 """
-from py2lean_types import (INT, BOOL, STR, RANGE, ERASED, NONE, TList, TOpt, TTuple, TObj, TAbs, THet)
+from py2lean_types import (INT, BOOL, STR, RANGE, ERASED, NONE, TList, TOpt, TTuple, TObj, TAbs, THet, TEffect, TEffectClass)
 
 VARS = "cnfgen/formula/variables.py"
 
@@ -56,6 +56,40 @@ BUILDERS = {
 BUILDERS["CNFLinear"] = {"ctor": [], "command": "add_clause", "args": [TList(INT)], "keywords": {"check": False},
                          "calls": {"_check_and_update": ([TList(INT)], NONE, True)}}
 
+# ---- the formula under construction (families): an effect object; its primitives are hand-written in
+# lean/CnfgenModel/Core/PyFormula.lean (the BaseCNF / CNFLinear / OPB methods at the level of abstract constraints)
+def _lits_check(name):
+    return {"lean": "PyF." + name, "params": [("lits", TList(INT)), ("check", BOOL, True)], "ret": None, "raises": True}
+
+
+EFFECTS = {
+    "Formula": {
+        "lean": "PyF.FState", "new": "PyF.empty",
+        "views": {"AbsFormula": "(AbsFormula.mk ({c}).numvar)"},
+        "methods": {
+            "number_of_variables": {"lean": "PyF.number_of_variables", "params": [], "ret": INT, "raises": False},
+            "update_variable_number": {"lean": "PyF.update_variable_number", "params": [("new_value", INT)], "ret": None, "raises": True},
+            "add_clause": {"lean": "PyF.add_clause", "params": [("clause", TList(INT)), ("check", BOOL, True)], "ret": None, "raises": True},
+            "add_linear": {"lean": "PyF.add_linear", "params": [("lits", TList(INT)), ("op", STR), ("constant", INT), ("check", BOOL, True)], "ret": None, "raises": True},
+            "cardinality_eq": {"lean": "PyF.cardinality_eq", "params": [("lits", TList(INT)), ("value", INT), ("check", BOOL, True)], "ret": None, "raises": True},
+            "cardinality_leq": {"lean": "PyF.cardinality_leq", "params": [("lits", TList(INT)), ("value", INT), ("check", BOOL, True)], "ret": None, "raises": True},
+            "cardinality_geq": {"lean": "PyF.cardinality_geq", "params": [("lits", TList(INT)), ("value", INT), ("check", BOOL, True)], "ret": None, "raises": True},
+            "cardinality_neq": {"lean": "PyF.cardinality_neq", "params": [("lits", TList(INT)), ("value", INT), ("check", BOOL, True)], "ret": None, "raises": True},
+            "add_parity": {"lean": "PyF.add_parity", "params": [("lits", TList(INT)), ("constant", INT), ("check", BOOL, True)], "ret": None, "raises": True},
+            "add_loose_majority": _lits_check("add_loose_majority"),
+            "add_loose_minority": _lits_check("add_loose_minority"),
+            "add_strict_majority": _lits_check("add_strict_majority"),
+            "add_strict_minority": _lits_check("add_strict_minority"),
+        },
+    },
+}
+FORMULA = TEffect("Formula", "PyF.FState")
+
+# constructors of interface objects: hand-written glue (lean/CnfgenModel/Vars/GenGlue.lean)
+ABS_CONSTRUCTORS = {
+    "CompleteBipartiteGraph": ("Cnfgen.Vars.absCompleteBip", [INT, INT], TAbs("AbsBipGraph"), True),
+}
+
 ITEMS = [
     {"file": VARS, "class": "BlockOfVariables", "property": "C11",
      "methods": {
@@ -102,6 +136,7 @@ ITEMS = [
          "_unsafe_index_to_lit": {"params": {"index": TList(INT)}, "lean": "index_to_lit"},
          "__call__": {"params": {"index": TList(TOpt(INT))}, "vararg": "index"},
          "to_index": {"params": {"lit": INT}},
+         "__getitem__": {"params": {"choices": INT}, "lean": "getitem"},
      }},
     {"file": VARS, "class": "SingletonVariableGroup", "property": "C11",
      "methods": {
@@ -154,4 +189,25 @@ ITEMS = [
     # ---- C04: the operator reduction of add_linear (a recursive procedure emitting clauses)
     {"file": "cnfgen/formula/linear.py", "class": "CNFLinear", "property": "C04", "self_builder": True,
      "methods": {"add_linear": {"params": {"lits": TList(INT), "op": STR, "constant": INT, "check": BOOL}}}},
+    # ================= families: the generator is a procedure on the formula (EFFECTS) =================
+    {"file": "cnfgen/localtypes.py", "function": "non_negative_int", "property": "C01",
+     "params": {"value": INT, "name": STR}},
+    {"file": "cnfgen/localtypes.py", "function": "positive_int", "property": "C01",
+     "params": {"value": INT, "name": STR}},
+    # VariablesManager: group creation and the force_*_mapping builders, one typed variant per group class.
+    # `f.parent_formula() != F` is assumed false (the families pass the groups they created on this formula).
+    {"file": VARS, "class": "VariablesManager", "property": "C01", "self_effect": "Formula", "self_alias": ["_formula"],
+     "erased_attrs": ["_groups"], "assume_false": ["f.parent_formula() != F"],
+     "methods": {
+         "_add_variable_group": [
+             {"lean": "add_variable_group_unary", "params": {"vg": TObj("UnaryMappingVariables")}},
+         ],
+         "new_mapping": {"params": {"n": INT, "m": INT, "label": ERASED}},
+         "force_complete_mapping": [{"lean": "force_complete_mapping_unary", "params": {"f": TObj("UnaryMappingVariables")}}],
+         "force_functional_mapping": [{"lean": "force_functional_mapping_unary", "params": {"f": TObj("UnaryMappingVariables")}}],
+         "force_surjective_mapping": [{"lean": "force_surjective_mapping_unary", "params": {"f": TObj("UnaryMappingVariables")}}],
+         "force_injective_mapping": [{"lean": "force_injective_mapping_unary", "params": {"f": TObj("UnaryMappingVariables")}}],
+     }},
+    {"file": "cnfgen/families/pigeonhole.py", "function": "PigeonholePrinciple", "property": "C01",
+     "params": {"pigeons": INT, "holes": INT, "functional": BOOL, "onto": BOOL, "formula_class": TEffectClass("Formula")}},
 ]
